@@ -10,6 +10,8 @@ EVID = os.path.join(HERE, 'evidence')
 # against another tree (VERIF_REPO, used to try seeded changes) writes elsewhere
 if os.path.realpath(os.environ.get('VERIF_REPO', '/repo')) != os.path.realpath('/repo') or os.environ.get('VERIF_COV'):
     EVID = os.path.join(HERE, 'build', '_alt_evidence')
+if os.environ.get('VERIF_EVIDENCE_DIR'):
+    EVID = os.environ['VERIF_EVIDENCE_DIR']      # soak runs at other seeds keep the registered evidence untouched
 REPLAY = os.path.join(HERE, 'replay')
 
 SAN_ENV = {
